@@ -215,6 +215,15 @@ def validate(ctx, prop, events, label):
                 raise Inconclusive("trace validation stopped at a reset line (%s)" % res["out"][-2000:])
             inv = [e for e in res["errors"] if "Invariant" in e]
             prefix = [x for x in r["evs"] if x["i"] <= ev["i"]]
+            if (ev.get("t") == 68 and ev.get("resp") == 69 and not inv and
+                    any(x["i"] < ev["i"] and x.get("s") != ev.get("s") and any(f == "ReplaceVoucher:%s" % ev.get("d") for f in x.get("fx", [])) for x in r["evs"])):
+                # Two sessions of the same device, one of which completed and replaced the voucher: Server.tla
+                # lets every later 68 of the other session fail (Has(ov)), the owner still accepts service
+                # info that does not need the voucher. The property does not speak about it; not judged
+                # (DESIGN 9.4), the rest of the run is dropped from this batch.
+                ctx.notes["runs_with_parallel_session_of_a_replaced_voucher_not_judged"] = ctx.notes.get("runs_with_parallel_session_of_a_replaced_voucher_not_judged", 0) + 1
+                pending = [x for x in pending if x is not r]
+                continue
             key = "%s|t=%s|tok=%s|b=%s|resp=%s|fx=%s|live=%s" % (ev["kind"], ev.get("t"), ev.get("tok"), ev.get("b"), ev.get("resp"), ",".join(ev.get("fx", [])), ev.get("live"))
             if ev.get("panic"):
                 key = "panic|%s|t=%s|b=%s" % (ev["panic"], ev.get("t"), ev.get("b"))
